@@ -21,7 +21,8 @@ import (
 // ---------------------------------------------------------------- replayer wrapper (witness + faults)
 
 type lEntry struct {
-	tag      string
+	tag      string // unique per publish: the payload tag, "~k"-qualified for the k-th publish of the same *Message
+	base     string // payload tag as a subscriber sees it
 	topics   []string
 	in       *sse.Message
 	out      *sse.Message // message that is fanned out (returned by Put, or the original on error)
@@ -49,6 +50,7 @@ type simReplayer struct {
 	putN     int
 	replayN  int
 	panicked bool
+	panicSeq int // world sequence number at the panic
 	afterPan int // calls reaching the wrapper after it panicked
 
 	failPutAt, panicPutAt       int
@@ -72,13 +74,17 @@ func (r *simReplayer) Put(m *sse.Message, topics []string) (out *sse.Message, er
 	defer func() { r.inCall = false }()
 	r.putN++
 	w := r.w
-	e := lEntry{tag: msgTag(m), topics: topics, in: m, out: m, seq: w.tick(), at: w.sim.Elapsed()}
+	e := lEntry{tag: msgTag(m), base: msgTag(m), topics: topics, in: m, out: m, seq: w.tick(), at: w.sim.Elapsed()}
+	if pm := w.curPub[m]; pm != nil {
+		e.tag = pm.tag // the publish call this Put belongs to (the same *Message may be published repeatedly)
+	}
 	idx := len(r.puts)
 	r.puts = append(r.puts, e)
 	w.sim.Logf("Put", "L[%d]=%s topics=%s", idx, e.tag, fmtTopics(topics))
 	if r.panicPutAt > 0 && r.putN == r.panicPutAt {
 		r.puts[idx].panicked = true
 		r.panicked = true
+		r.panicSeq = w.tick()
 		w.o.fault("replayer Put panics")
 		w.sim.Log("fault", "Put panics")
 		panic("injected: replayer Put panic")
@@ -125,6 +131,7 @@ func (r *simReplayer) Replay(sub sse.Subscription) error {
 		rc.panicked = true
 		r.replays = append(r.replays, rc)
 		r.panicked = true
+		r.panicSeq = w.tick()
 		w.o.fault("replayer Replay panics")
 		w.sim.Log("fault", "Replay panics")
 		panic("injected: replayer Replay panic")
@@ -255,6 +262,7 @@ type joeWorld struct {
 	closer     joeShutdown
 
 	seq          int
+	curPub       map[*sse.Message]*pubMsg // publish call in progress per message pointer
 	pubsReturned int
 	accepted     int
 	prehistory   int
@@ -369,6 +377,17 @@ func (w *joeWorld) generate() {
 			jp.msgs = append(jp.msgs, pm)
 			n++
 			budget--
+			for k := 2; k <= 3 && w.repKind == 0 && budget > 0 && ch.Chance(1, 8, "publish the same *Message again"); k++ {
+				// the same message value may be published any number of times (a heartbeat, the README's hello world)
+				again := &pubMsg{tag: fmt.Sprintf("%s~%d", pm.tag, k), topics: pm.topics, msg: pm.msg, pub: p}
+				if ch.Chance(1, 3, "other topics this time") {
+					again.topics = genTopics(ch, "msg")
+				}
+				w.allMsgs = append(w.allMsgs, again)
+				jp.msgs = append(jp.msgs, again)
+				budget--
+				w.o.probe("the same *Message published again")
+			}
 		}
 		w.pubs = append(w.pubs, jp)
 	}
@@ -651,6 +670,10 @@ func (w *joeWorld) doShutdown(sd *joeShutdown) {
 }
 
 func (w *joeWorld) publish(pm *pubMsg) {
+	if w.curPub == nil {
+		w.curPub = map[*sse.Message]*pubMsg{}
+	}
+	w.curPub[pm.msg] = pm
 	pm.invoked = w.tick()
 	w.sim.Logf("Publish", "%s#%s topics=%s invoke", pm.tag, pm.msg.ID.String(), fmtTopics(pm.topics))
 	err := w.j.Publish(pm.msg, pm.topics)
@@ -1043,11 +1066,43 @@ func (w *joeWorld) checkDeliveries() {
 
 		sent := s.sub.Sent()
 		seen := map[string]bool{}
+		seenBase := map[string]int{}
+		var sendSteps []int
+		for _, c := range s.sub.Calls {
+			if !c.Flush {
+				sendSteps = append(sendSteps, c.Step)
+			}
+		}
 		var lseq []int
-		for _, m := range sent {
+		for si, m := range sent {
 			tag := msgTag(m)
+			seenBase[tag]++
+			if w.rep.panicked && si < len(sendSteps) && sendSteps[si] > w.rep.panicSeq {
+				continue // sent after the replayer had panicked: no Put-order witness for it (counts are checked by the witness-free clauses)
+			}
+			if !w.noWitness && si >= s.replayedN && si < len(sendSteps) {
+				// a live Send belongs to the fan-out of the latest Put before it (Joe is serial)
+				lp := -1
+				for i := range L {
+					if L[i].seq < sendSteps[si] {
+						lp = i
+					}
+				}
+				if lp >= 0 && L[lp].base == tag {
+					tag = L[lp].tag
+				}
+			}
 			if seen[tag] {
-				o.violate(prop, "duplicate", "sub%d received %s twice: %s", s.id, tag, tagsOf(sent))
+				// without a witness a repeated payload may be a legitimate re-publish of the same *Message
+				published := 0
+				for _, pm := range w.allMsgs {
+					if msgTag(pm.msg) == msgTag(m) && pm.invoked != 0 {
+						published++
+					}
+				}
+				if witnessOK || seenBase[msgTag(m)] > published {
+					o.violate(prop, "duplicate", "sub%d received %s twice: %s", s.id, tag, tagsOf(sent))
+				}
 			}
 			seen[tag] = true
 			p, ok := pos[tag]
@@ -1092,7 +1147,7 @@ func (w *joeWorld) checkDeliveries() {
 				}
 				saved := s.accepted
 				s.accepted = first
-				w.checkMustInclude(s, seen, endSeq, prop)
+				w.checkMustInclude(s, seenBase, endSeq, prop)
 				s.accepted = saved
 			}
 			continue
@@ -1204,7 +1259,7 @@ func (w *joeWorld) checkDeliveries() {
 			}
 		} else {
 			// weaker: live part must be contiguous from acceptance
-			w.checkMustInclude(s, seen, endSeq, prop)
+			w.checkMustInclude(s, seenBase, endSeq, prop)
 		}
 	}
 }
@@ -1219,7 +1274,8 @@ func firstSendSeq(s *joeSub) int {
 }
 
 // checkMustInclude is the time-based lower bound that needs no witness.
-func (w *joeWorld) checkMustInclude(s *joeSub, seen map[string]bool, endSeq int, prop string) {
+func (w *joeWorld) checkMustInclude(s *joeSub, got map[string]int, endSeq int, prop string) {
+	need := map[string]int{}
 	for _, m := range w.allMsgs {
 		if m.invoked == 0 || m.returned == 0 || errors.Is(m.err, sse.ErrProviderClosed) {
 			continue
@@ -1227,9 +1283,13 @@ func (w *joeWorld) checkMustInclude(s *joeSub, seen map[string]bool, endSeq int,
 		if !topicsIntersect(s.topics, m.topics) {
 			continue
 		}
-		if m.invoked > s.accepted && (endSeq == 0 || m.returned < endSeq) && !seen[m.tag] {
-			w.o.violate(prop, "missing", "sub%d (topics %s) never received %s, published entirely within its subscription; got %s", s.id, fmtTopics(s.topics), m.tag, tagsOf(s.sub.Sent()))
-			return
+		if m.invoked > s.accepted && (endSeq == 0 || m.returned < endSeq) {
+			base := msgTag(m.msg)
+			need[base]++
+			if got[base] < need[base] {
+				w.o.violate(prop, "missing", "sub%d (topics %s) never received %s, published entirely within its subscription; got %s", s.id, fmtTopics(s.topics), m.tag, tagsOf(s.sub.Sent()))
+				return
+			}
 		}
 	}
 }
@@ -1242,9 +1302,16 @@ func (w *joeWorld) checkWitnessFree() {
 	if w.faults {
 		prop = "C17"
 	}
+	repeated := map[string]int{}
+	for _, pm := range w.allMsgs {
+		repeated[msgTag(pm.msg)]++
+	}
 	orderOf := func(s *joeSub) map[string]int {
 		m := map[string]int{}
 		for i, msg := range s.sub.Sent() {
+			if repeated[msgTag(msg)] > 1 {
+				continue // the same *Message published several times: occurrences cannot be told apart here
+			}
 			if _, dup := m[msgTag(msg)]; !dup {
 				m[msgTag(msg)] = i
 			}
